@@ -90,6 +90,17 @@ def run_history(steps):
             kw = {'_cython': False} if is_query(q) else {}
             for af in (True, False):
                 list(itertools.islice(q.get_mapping(p, automorphism_filter=af, **kw), 3))
+        elif op == 'touch':         # fill the caches other uses of the object fill (printing, components, rings, orders)
+            for attr in ('connected_components', 'sssr', 'atoms_order', 'rings_count', '_compiled_query',
+                         '_cython_compiled_structure', 'connected_components_count'):
+                try:
+                    getattr(p, attr)
+                except Exception:
+                    pass
+            try:
+                str(p)
+            except Exception:
+                pass
         elif op == 'copy':
             p = p.copy()
         elif op == 'or':
@@ -617,6 +628,14 @@ class Independent:
         return pb.order == tb.order
 
 
+def fresh_copy(t):
+    """the same atoms and bonds as a new object whose labels are computed from scratch (an edited object may carry stale ones)"""
+    try:
+        return rebuild(t)
+    except Exception:
+        return t
+
+
 def reference_embeddings(p, t, scope, budget=2_000_000):
     """all maps f: pattern atoms -> target atoms with: injective; atom match; every pattern bond matches the image bond;
     no additional target bond between images of atoms of one pattern component; different pattern components in
@@ -624,7 +643,7 @@ def reference_embeddings(p, t, scope, budget=2_000_000):
     pa, ta = p._atoms, t._atoms
     pbn, tbn = p._bonds, t._bonds
     pcomp, tcomp = own_components(pbn), own_components(tbn)
-    ind = Independent(t)
+    ind = Independent(fresh_copy(t))
     order = list(pa)
     allowed = set(ta) if scope is None else set(scope) & set(ta)
     cand = {u: [x for x in ta if x in allowed and ind.atom(pa[u], x)] for u in order}
@@ -673,7 +692,7 @@ def all_injections_embeddings(p, t, scope):
     pa, ta = p._atoms, t._atoms
     pbn, tbn = p._bonds, t._bonds
     pcomp, tcomp = own_components(pbn), own_components(tbn)
-    ind = Independent(t)
+    ind = Independent(fresh_copy(t))
     us = list(pa)
     xs = [x for x in ta if scope is None or x in set(scope)]
     res = []
@@ -1147,21 +1166,87 @@ def gen_cases(ctx):
                 finals.append(union([m0, oh[1]]))
         for tm in finals:
             yield 'history:pattern', {'hist': steps}, tgt(tm), None
-    # target objects with a past: searched, then edited
-    for i in range(20 if quick else 150):
-        tag0, m0 = rng.choice([x for x in hand if 2 <= len(x[1]) <= 12] + targets[:10])
+    # target objects with a past: searched / printed (every cache filled), then edited so that the COMPONENT structure, the
+    # bonds and the labels change — bridges of every bond order incl. coordination (8) bonds removed, components joined by a new
+    # bond, atoms removed — and then searched with one- and several-component patterns cut from the final structure
+    bridged = ['CC(=O)[O-]~[Na+]', 'C[O-]~[Na+]', '[Cl-]~[Na+]', 'N~[Cu]~N', 'CC(=O)O~[Fe]~OC(C)=O', 'c1ccccc1~[Cr]', 'O~O',
+               'CCO~[Li]', 'CC(=O)[O-]~[K+].O', 'CO~[Mg]~OC.C', 'CC=O', 'CC#N', 'c1ccccc1C', 'CCOC', 'C1CC1C', 'CC.O', 'NCCO.CC']
+    tbases = [(x, molgen.parse(x)) for x in bridged]
+    tbases = [(x, m) for x, m in tbases if m is not None] + [x for x in hand if 2 <= len(x[1]) <= 12][:20] + targets[:6]
+
+    def own_bridges(m):
+        comp0 = len(set(own_components(m._bonds).values()))
+        out = []
+        for a, b, _ in m.bonds():
+            adj = {n: {k: 1 for k in ms if {n, k} != {a, b}} for n, ms in m._bonds.items()}
+            if len(set(own_components(adj).values())) > comp0:
+                out.append((a, b))
+        return out
+
+    def target_tails(m):
+        atoms = list(m._atoms)
+        tails = []
+        for a, b in own_bridges(m):
+            tails.append([['delete_bond', a, b]])
+        comp = own_components(m._bonds)
+        cross = [(a, b) for a in atoms for b in atoms if a < b and comp[a] != comp[b]]
+        if cross:
+            a, b = rng.choice(cross)
+            tails.append([['add_bond', a, b, rng.choice([1, 8])]])
+        inner = [(a, b) for a in atoms for b in atoms if a < b and comp[a] == comp[b] and b not in m._bonds[a]]
+        if inner:
+            a, b = rng.choice(inner)
+            tails.append([['add_bond', a, b, rng.choice([1, 8])]])
+        if len(atoms) >= 3:
+            tails.append([['delete_atom', rng.choice(atoms)]])
+        bl = [(a, b) for a, b, _ in m.bonds()]
+        if bl:
+            tails.append([['delete_bond', *rng.choice(bl)]])
+        tails.append([['add_atom', 'O'], ['add_bond', rng.choice(atoms), max(atoms) + 1, rng.choice([1, 8])]])
+        tails.append([['or', {'mol': wire.mol_to_ints(molgen.parse(rng.choice(['O', 'CC', '[Na+]'])))}]])
+        return tails
+
+    def final_patterns(t):
+        """patterns cut from the final structure: one connected cut, a union of cuts of two components, the whole"""
+        out = []
+        comps = {}
+        for n, c in own_components(t._bonds).items():
+            comps.setdefault(c, []).append(n)
+        cl = list(comps.values())
+        try:
+            out.append({'mol': wire.mol_to_ints(rebuild(t.substructure(connected_cut(rng, t, rng.randint(1, 4)), recalculate_hydrogens=False)))})
+            if len(cl) >= 2:
+                c1, c2 = rng.sample(cl, 2)
+                s1 = t.substructure(connected_cut(rng, t.substructure(c1, recalculate_hydrogens=False), rng.randint(1, 3)), recalculate_hydrogens=False)
+                s2 = t.substructure(connected_cut(rng, t.substructure(c2, recalculate_hydrogens=False), rng.randint(1, 3)), recalculate_hydrogens=False)
+                out.append({'mol': wire.mol_to_ints(union([s1, s2]))})
+            if len(t) <= 12:
+                out.append({'mol': wire.mol_to_ints(rebuild(t))})
+        except Exception:
+            pass
+        return out
+
+    _state['final_patterns'] = final_patterns
+    for tag0, m0 in (tbases if not quick else tbases[:17] + rng.sample(tbases[17:], 5)):
         tin = wire.mol_to_ints(m0)
-        pq = rand_spec(rng.random() < 0.5)
-        steps = [['new', tin], ['searched', pq]]
         try:
             obj = make_target(tin)
-            steps += rand_tail(obj, False, as_target=True)
-            run_history(steps)
+            tails = target_tails(obj)
         except Exception as e:
             ctx.dist('history-not-applicable:' + type(e).__name__)
             continue
-        yield 'history:target', pq, {'hist': steps}, None
-        yield 'history:target', rand_spec(rng.random() < 0.5), {'hist': steps}, None
+        for tail in (tails if not quick else rng.sample(tails, min(len(tails), 4))):
+            pq = rand_spec(rng.random() < 0.5)
+            steps = [['new', tin], rng.choice([['searched', pq], ['touch']]), ['touch']] + tail
+            try:
+                fin = run_history(steps)
+            except Exception as e:
+                ctx.dist('history-not-applicable:' + type(e).__name__)
+                continue
+            if len(fin._atoms) == 0:
+                continue
+            for ps in final_patterns(fin) + [pq]:
+                yield 'history:target', ps, {'hist': steps}, None
     # E4. operator family: the pattern itself, the pattern plus isolated atoms / ions / a second copy (equal bond counts, more
     #     atoms), the pattern plus a bonded atom, and the reverse directions — `<=`, `<`, `is_equal`, `>=`, `>` on each pair
     extras = ['O', 'N', 'C', '[Na+]', '[Cl-]', '[Na+].[Cl-]', 'O.O']
@@ -1279,6 +1364,14 @@ def stream_get_mapping(ctx):
             ctx.dist('skipped:too-many-mappings')
             continue
         st1, r1 = outcome(lambda: real_mappings(p, t, True, scope))
+        # an object with a history must answer like a fresh object with the same atoms and bonds
+        if isinstance(tints, dict) and st0 == 'ok':
+            stf, rf = outcome(lambda: real_mappings(make_pattern(pspec), fresh_copy(t), False, scope))
+            ctx.count(('fresh', tag, target_key(tints), repr(pspec)), nontrivial=bool(r0))
+            ctx.dist('history-vs-fresh-object')
+            if stf != 'ok' or canon(rf) != canon(r0):
+                disagree(ctx, 'history/fresh-object-differs', f'{tag}: edited object gives {len(r0)} mappings, a fresh object with the '
+                         f'same atoms and bonds {len(rf) if rf is not None else stf}', inp)
         # the accelerated (bit-mask) matcher must return the same multisets wherever it is defined
         if is_query(p) and st0 == 'ok' and st1 == 'ok' and install_accelerated() and accel_domain(p, t) and \
                 (not quick_accel_skip(ctx, tag)):
@@ -1652,8 +1745,14 @@ def neighbourhood(rng, inp, k=12):
                 pass
         for _, hm in molgen.handmade()[:40]:
             yield {'pattern': inp['pattern'], 'target': wire.mol_to_ints(hm), 'scope': None, 'accelerated': acc}
-    if isinstance(inp['target'], dict):   # a target with a history: first the same final structure without the history
+    if isinstance(inp['target'], dict):   # a target with a history: patterns cut from its final structure (one and several
+        fp = _state.get('final_patterns')  # components, the whole), then the same final structure without the history
+        if fp is not None:
+            for _ in range(6):
+                for ps in fp(t):
+                    yield {'pattern': ps, 'target': inp['target'], 'scope': None, 'accelerated': acc}
         yield {'pattern': inp['pattern'], 'target': wire.mol_to_ints(t), 'scope': inp.get('scope'), 'accelerated': acc}
+        return
     for _ in range(k if len(t) > 2 else 0):
         atoms = connected_cut(rng, t, rng.randint(2, min(len(t), 9)))
         sub = rebuild(t.substructure(atoms, recalculate_hydrogens=False))
